@@ -408,6 +408,11 @@ def classify(msg):
     return None
 
 
+def _fails_as(case, key, workdir):
+    m = oracle(case, workdir)
+    return m is not None and classify(m) == key
+
+
 # ----------------------------------------------------------------------------- correspondence
 def correspondence(ctx, model_ok=True):
     n = 400 if ctx.quick else 6000
@@ -456,7 +461,7 @@ def correspondence(ctx, model_ok=True):
         small = c
         if msg:
             key = classify(msg)
-            small = H.shrink_case(c, lambda x: classify(oracle(x, ctx.work)) == key)
+            small = H.shrink_case(c, lambda x: _fails_as(x, key, ctx.work))
             msg = oracle(small, ctx.work)
         out["failures"].append(Failure(small, "model and implementation disagree: " + H.describe(code), key=classify(msg), on_impl=msg))
     return out
@@ -473,7 +478,7 @@ def search(ctx):
         if msg and classify(msg) not in seen:
             key = classify(msg)
             seen.add(key)
-            small = H.shrink_case(c, lambda x: classify(oracle(x, ctx.work)) == key)
+            small = H.shrink_case(c, lambda x: _fails_as(x, key, ctx.work))
             found.append(Failure(small, "property oracle fails on the implementation", key=key, on_impl=oracle(small, ctx.work)))
             if len(found) >= 5:
                 break
